@@ -37,6 +37,8 @@ var relKinds = []relKind{
 var relIdxRe = regexp.MustCompile(`@(\d+)r(\d+)#2`)
 
 func checkC15(p *Prog, r *Report) {
+	r.rule("C15.type-lookup: Schema.GetType / HasType find a type by one exact equality test between a type's Name and the requested name and call nothing else (the comparison AddType uses to keep names unique)")
+	checkTypeLookup(p, r, "C15")
 	r.rule(r3RuleText)
 	r.rule("C15.read-only (mod analysis): Check and GetType write nothing reachable from the schema")
 	r.rule("C15.full-traversal: every edge that leaves one of Check's loops is the loop's own completion; there is no return or break inside them, so one fault cannot hide another relationship")
